@@ -34,7 +34,7 @@ def genFor (prop tier : String) (seed : Nat) : Except String (Array Case) :=
   | "C19" => pure (genTabFamily "c19" tier seed true)
   | "C07" => pure (genC07Cases tier seed)
   | "C08" => pure (genVisCases tier seed "c08" ++ genVisHostile tier seed "c08")
-  | "C09" => pure (genVisCases tier seed "c09" ++ perSymbolVisCases "c09")
+  | "C09" => pure (genVisCases tier seed "c09" ++ perSymbolVisCases "c09" ++ perPairPrivateVisCases "c09")
   | "C16" => pure (genC16AllCases tier seed)
   | "C17" => pure (genC17Cases tier seed)
   | "C18" => pure (genC18Cases tier seed ++ pairwiseNestedCases "c18")
